@@ -282,6 +282,17 @@ def strategyResp (c : Cfg) (r : Resp) : SResp :=
 
 def checkTraceId (c : Cfg) (tid : Nat) : Bool := decide (c.traceId = tid) || decide (tid = 0)
 
+/-- `trippy_tui::app::trace_identifier`: the identifier the CLI gives its `i`-th tracer
+(`pid = process id % 65535`) -/
+def cliTraceId (pid i : Nat) : Nat :=
+  let id := (pid % 65535 + i % 65535) % 65535
+  if id = 0 then 65535 else id
+
+/-- the assignment before the repair (`pid + i as u16` with checked `u16` addition, the index
+truncated to `u16` first) -/
+def cliTraceIdOld (pid i : Nat) : R Nat :=
+  if pid + i % 65536 < 65536 then .ok (pid + i % 65536) else .panic
+
 /-- the `target_ttl` update of `complete_probe` -/
 def newTargetTtl (s : TS) (isTarget : Bool) (ttl : Nat) : Option Nat :=
   if isTarget then
